@@ -148,6 +148,27 @@ def child(out_npz):
         for deriv in (0, 1):
             res["sdmx_slow_conv_%s_deriv%d" % (itype, deriv)] = np.ravel(np.array(
                 eval_conv_gto("GTOval_sph_deriv%d" % deriv, (sds, al, (al / np.pi) ** 1.5), mold, crd[:3000]), copy=True))
+    # ---- 8. radial grid <-> orbital basis with FEW shells per atom, many atoms and a radial grid of its own per atom: with a
+    # dynamic schedule a thread then moves between atoms at equal angular momentum (anything a thread remembers per shell
+    # quantum number across iterations is exposed)
+    from ciderpress.dft.lcao_convolutions import ATCBasis, get_gamma_lists_from_etb_list
+    for nm, natm, nshl in (("3s3p", 8, (3, 3)), ("4s4p", 8, (4, 4)), ("5s3p2d", 6, (5, 3, 2)), ("2s2p2d2f", 9, (2, 2, 2, 2))):
+        atco = ATCBasis(*get_gamma_lists_from_etb_list([[(l, n_, 0.3, 2.2) for l, n_ in enumerate(nshl)]] * natm))
+        nlm = len(nshl) ** 2
+        rads, ra_loc = [], [0]
+        for ia in range(natm):
+            nr = 20 + 3 * (ia % 4)
+            xg = (np.arange(nr) + 0.5) / nr
+            rads.append((1.0 + 0.35 * ia) * 2.5 * xg ** 2 / (1.02 - xg))
+            ra_loc.append(ra_loc[-1] + nr)
+        rads = np.ascontiguousarray(np.concatenate(rads))
+        ra_loc = np.asarray(ra_loc, dtype=np.int32)
+        th = np.ascontiguousarray(np.random.default_rng(natm).normal(size=(rads.size, nlm, 3)))
+        puq = np.zeros((atco.nao, 3))
+        atco.convert_rad2orb_(th, puq, ra_loc, rads, rad2orb=True)
+        back = np.zeros_like(th)
+        atco.convert_rad2orb_(back, np.ascontiguousarray(np.random.default_rng(natm + 1).normal(size=(atco.nao, 3))), ra_loc, rads, rad2orb=False)
+        res["rad_orb_small_%s" % nm] = np.concatenate([puq.ravel(), back.ravel()])
     np.savez(out_npz, **res)
 
 
